@@ -36,6 +36,10 @@ class Str(Spec):
     pass
 
 
+class Bytes(Spec):
+    pass
+
+
 class Real(Spec):
     pass
 
@@ -127,6 +131,8 @@ def instantiate(E, name, spec):
         return VS(z3.String(name))
     if isinstance(spec, Real):
         return VR(z3.Real(name))
+    if isinstance(spec, Bytes):
+        return VBy(z3.String(name))
     if isinstance(spec, NoneV):
         return NONE
     if isinstance(spec, Const):
